@@ -502,50 +502,53 @@ def try_sites(b):
                 elif tt.get("target") is not None:
                     # the residual is built in a local (the `?` sits in a helper that was inlined): it must reach _0 by plain
                     # moves only and the function must return without doing anything else
-                    carried = {tt["dest"]["l"]}
-                    cur, steps, ok = tt["target"], 0, False
-                    while steps < 16:
-                        steps += 1
-                        plain = True
-                        for st in b.blocks[cur]["stmts"]:
-                            if st["s"] == "assign" and st["rv"]["r"] == "use" and not st["lhs"]["p"]:
-                                q = st["rv"]["o"].get("m") or st["rv"]["o"].get("c")
-                                if q is not None and q["l"] in carried and all(isinstance(e, dict) and ("down" in e or "f" in e) for e in q["p"]):
-                                    carried.add(st["lhs"]["l"])
-                                    continue
-                            if st["s"] == "assign" and st["lhs"]["p"]:
-                                plain = False       # a store to memory; assignments to plain locals (drop flags, discriminant reads) are inert
-                        t2 = b.blocks[cur]["term"]
-                        if not plain:
-                            break
-                        if t2["t"] == "return":
-                            ok = 0 in carried
-                            break
-                        if t2["t"] in ("goto", "drop") and t2.get("target") is not None:
-                            cur = t2["target"]
-                            continue
-                        # the error is re-propagated by an enclosing `?` (the inner `?` sat in a helper that was inlined):
-                        # branch(err) -> Break arm -> from_residual
-                        if t2["t"] == "call" and t2.get("target") is not None and not t2["dest"]["p"] and \
-                                t2["callee"].get("def") in ("std::ops::Try::branch", "std::ops::FromResidual::from_residual"):
-                            q = t2["args"][0].get("m") or t2["args"][0].get("c")
-                            if q is not None and q["l"] in carried:
-                                carried.add(t2["dest"]["l"])
+                    def walk(cur, carried, steps):
+                        """True if every continuation from `cur` returns with the error in _0 having done nothing but move it."""
+                        carried = set(carried)
+                        while steps < 24:
+                            steps += 1
+                            for st in b.blocks[cur]["stmts"]:
+                                if st["s"] == "assign" and st["rv"]["r"] == "use" and not st["lhs"]["p"]:
+                                    q = st["rv"]["o"].get("m") or st["rv"]["o"].get("c")
+                                    if q is not None and q["l"] in carried and all(isinstance(e, dict) and ("down" in e or "f" in e) for e in q["p"]):
+                                        carried.add(st["lhs"]["l"])
+                                        continue
+                                if st["s"] == "assign" and st["lhs"]["p"]:
+                                    return False       # a store to memory; assignments to plain locals (drop flags, discriminant reads) are inert
+                            t2 = b.blocks[cur]["term"]
+                            if t2["t"] == "return":
+                                return 0 in carried
+                            if t2["t"] in ("goto", "drop") and t2.get("target") is not None:
                                 cur = t2["target"]
                                 continue
-                            break
-                        if t2["t"] == "switch":
-                            dq = t2["discr"].get("m") or t2["discr"].get("c")
-                            src = None
-                            if dq is not None and not dq["p"]:
-                                for st in b.blocks[cur]["stmts"]:
-                                    if st["s"] == "assign" and not st["lhs"]["p"] and st["lhs"]["l"] == dq["l"] and st["rv"]["r"] == "discr":
-                                        src = st["rv"]["p"]["l"]
-                            brk = [d for v, d in t2["targets"] if int(v) == 1]
-                            if src in carried and len(brk) == 1:
-                                cur = brk[0]
-                                continue
-                        break
+                            # the error is re-propagated by an enclosing `?` (the inner `?` sat in a helper that was inlined):
+                            # branch(err) -> Break arm -> from_residual
+                            if t2["t"] == "call" and t2.get("target") is not None and not t2["dest"]["p"] and \
+                                    t2["callee"].get("def") in ("std::ops::Try::branch", "std::ops::FromResidual::from_residual"):
+                                q = t2["args"][0].get("m") or t2["args"][0].get("c")
+                                if q is not None and q["l"] in carried:
+                                    carried.add(t2["dest"]["l"])
+                                    cur = t2["target"]
+                                    continue
+                                return False
+                            if t2["t"] == "switch":
+                                dq = t2["discr"].get("m") or t2["discr"].get("c")
+                                src = None
+                                if dq is not None and not dq["p"]:
+                                    for st in b.blocks[cur]["stmts"]:
+                                        if st["s"] == "assign" and not st["lhs"]["p"] and st["lhs"]["l"] == dq["l"] and st["rv"]["r"] == "discr":
+                                            src = st["rv"]["p"]["l"]
+                                brk = [d for v, d in t2["targets"] if int(v) == 1]
+                                if src in carried and len(brk) == 1:
+                                    cur = brk[0]
+                                    continue
+                                if src is None and t2.get("discr_ty") == "bool" and dq is not None and not dq["p"] and dq["l"] not in carried:
+                                    # a drop flag: whichever way it goes, the rest must do the same
+                                    succs = [d for _, d in t2["targets"]] + [t2["otherwise"]]
+                                    return all(walk(d, carried, steps) for d in set(succs))
+                            return False
+                        return False
+                    ok = walk(tt["target"], {tt["dest"]["l"]}, 0)
                     site["residual_ok"] = ok
                     site["chain_verified"] = ok     # the walk above ended at `return` with the error in _0 and met nothing else
         out.append(site)
